@@ -33,6 +33,31 @@ class SuspectCtx:
             self._ctx.undecided(rule, instance, where, '%s: %s' % (self._why, bad_detail))
 
 
+class CorroborateCtx:
+    """wraps a check context for a rule that can only add to a verdict already reached another way: what it establishes is recorded, what it does not
+    establish (a violation it reports, or a layout it does not recognise) is recorded as a note, never as a verdict"""
+    def __init__(self, ctx, why):
+        self._ctx, self._why = ctx, why
+
+    def __getattr__(self, name):
+        return getattr(self._ctx, name)
+
+    def _note(self, rule, instance, where, detail):
+        self._ctx.ok(rule, instance + ' (symbolic corroboration)', where, '%s; the symbolic rule adds nothing here: %s' % (self._why, str(detail)[:200]), nontrivial=False)
+
+    def violation(self, rule, instance, where, detail, key=None):
+        self._note(rule, instance, where, detail)
+
+    def undecided(self, rule, instance, where, detail):
+        self._note(rule, instance, where, detail)
+
+    def expect(self, cond, rule, instance, where, ok_detail, bad_detail, key=None, **kw):
+        if cond:
+            self._ctx.ok(rule, instance, where, ok_detail, **kw)
+        else:
+            self._note(rule, instance, where, bad_detail)
+
+
 def first(p, lab=N):
     return mk_fn('at', B(lab, p), P(Poly()))
 
